@@ -69,6 +69,8 @@ func renderClass(err error) string {
 	switch {
 	case errors.Is(err, errWriter):
 		return "writer"
+	case errors.Is(err, html.ErrIncludeTooDeep):
+		return "toodeep"
 	case errors.Is(err, html.ErrTplNotFound):
 		return "notfound"
 	case errors.Is(err, html.ErrAttrValueExpected):
@@ -91,6 +93,11 @@ func (r runResult) line() string {
 		sb.WriteString("ERR " + r.class + " ")
 	}
 	pStr(&sb, r.out)
+	if r.class == "toodeep" {
+		// how many calls were made before the depth guard fired depends on the limit, not on the property
+		sb.WriteString(" LOG ")
+		return sb.String()
+	}
 	sb.WriteString(" LOG " + r.log)
 	return sb.String()
 }
